@@ -855,7 +855,9 @@ fn run_serve(ctx: &mut Ctx) -> Result<RunOut, Violation> {
         // ---- C02 / C06: the bytes inside the framing
         if matches!(focus, "C02" | "C06" | "C01") && !head && resp.complete && !planned_fault && ok_status {
             let segs = vec![Seg::Lit(resp.body.clone())];
-            let is_multi = resp.status == 206 && resp.hdr("content-type").map(|v| v.to_ascii_lowercase().starts_with(b"multipart/byteranges")).unwrap_or(false);
+            // (a single-range 206 of an entity that is itself a multipart document has a
+            // Content-Range next to the entity's own multipart Content-Type)
+            let is_multi = resp.status == 206 && resp.hdr("content-range").is_none() && resp.hdr("content-type").map(|v| v.to_ascii_lowercase().starts_with(b"multipart/byteranges")).unwrap_or(false);
             if resp.status == 200 {
                 let mut c = Cur::new(&segs, meta.seed);
                 if let Err(e) = c.take_entity(0, meta.len).and_then(|_| if c.at_end() { Ok(()) } else { Err("extra bytes after the entity".to_string()) }) {
@@ -920,10 +922,15 @@ fn run_serve(ctx: &mut Ctx) -> Result<RunOut, Violation> {
 /// from the real clock when the response has none (its `auto_date_header(false)` is not applied
 /// to HTTP/1 connections), and the real clock must not enter the event hash.
 fn hash_bytes(b: &[u8]) -> u64 {
+    hash_wire(b, &[b"\r\ndate: "])
+}
+
+/// Hash of the wire with the values of the given header lines masked out.
+fn hash_wire(b: &[u8], masked: &[&[u8]]) -> u64 {
     let mut h = 0xcbf2_9ce4_8422_2325u64;
     let mut i = 0;
     while i < b.len() {
-        if b[i..].starts_with(b"\r\ndate: ") {
+        if masked.iter().any(|m| b[i..].starts_with(m)) {
             // skip to the CRLF that ends this header line
             let mut j = i + 2;
             while j < b.len() && !(b[j] == b'\r' && b.get(j + 1) == Some(&b'\n')) {
@@ -1562,7 +1569,9 @@ fn run_file(ctx: &mut Ctx) -> Result<RunOut, Violation> {
     http_serve::verif::set_read_hook(None);
     let s = io.borrow();
     let h = hook.borrow();
-    ctx.ev("wire", s.wire.len() as u64, hash_bytes(&s.wire));
+    // (ETag and Last-Modified of a real file carry its inode and its real modification time)
+    // (their hex fields also vary in width, so the wire's length stays out of the hash as well)
+    ctx.ev("wire", 0, hash_wire(&s.wire, &[b"\r\ndate: ", b"\r\netag: ", b"\r\nlast-modified: "]));
     ctx.ev("reads", h.reads as u64, h.fired.is_some() as u64);
     let stats = &mut *ctx.stats;
     stats.add("f_conn_polls", out.polls);
